@@ -5,6 +5,7 @@ when there is a front speed D ≠ 0 with which the shocked state at rest and the
 Rankine–Hugoniot conditions (`EPV.Spec.StagnationShock`, m = 0) — for ANY equation of state object.
 -/
 import EPV.Lemmas.C16ResDefs
+import EPV.Lemmas.Bridge.EosTac
 
 set_option linter.all false
 
@@ -60,28 +61,29 @@ theorem sEnergyS0_zero_iff_jump (s : EOS) (ic : NohIC) (ρ x : ℝ) (hic : ic.Ad
     (∀ i, C16.SEnergyS0.F s ic ρ x i = 0) ↔
     ∃ D, D ≠ 0 ∧ StagnationShock ic 0 (s.e ic.rho_0 ic.P_0) ρ x (s.e ρ x) D := by
   obtain ⟨hu, hr0, hP0, hm⟩ := hic
-  have k0 : ¬ (0 ≤ ic.u_0) := not_le.mpr hu
-  have k1 : ¬ (ic.rho_0 ≤ 0) := not_le.mpr hr0
-  have k3 := eq_true hP
   have hic' : ic = ⟨ic.rho_0, ic.u_0, 0⟩ := by cases ic; simp_all
   have core := simplified_core ic.rho_0 ic.u_0 (s.e ic.rho_0 ic.P_0) ρ x (s.e ρ x) hu hr0 hρ
   rw [← hic'] at core
-  rw [← core, Fin.forall_fin_two]
-  simp only [C16.SEnergyS0.F, epv_c16, epv_tree, epv_cond, epv_leaf, hρ, k0, k1, k3, if_true, if_false, Matrix.cons_val]
+  -- bridge: the traced components are the documented residuals, however the code writes them
+  have e0 : C16.SEnergyS0.F s ic ρ x 0 = x - ic.u_0 ^ 2 * ic.rho_0 - x / ρ * ic.rho_0 := by
+    simp only [C16.SEnergyS0.F] <;> epv_eos_res_eq
+  have e1 : C16.SEnergyS0.F s ic ρ x 1 = s.e ρ x - s.e ic.rho_0 ic.P_0 - 1 / 2 * ic.u_0 ^ 2 := by
+    simp only [C16.SEnergyS0.F] <;> epv_eos_res_eq
+  rw [← core, Fin.forall_fin_two, e0, e1]
 
 /-- `simplified_pressure_noh_residual` (unknowns ρ, e; shocked pressure P(ρ, e)) -/
 theorem sPressureS0_zero_iff_jump (s : EOS) (ic : NohIC) (ρ x : ℝ) (hic : ic.Admissible 0) (hP : ic.P_0 = 0) (hρ : ρ ≠ 0) :
     (∀ i, C16.SPressureS0.F s ic ρ x i = 0) ↔
     ∃ D, D ≠ 0 ∧ StagnationShock ic 0 (s.e ic.rho_0 ic.P_0) ρ (s.P ρ x) x D := by
   obtain ⟨hu, hr0, hP0, hm⟩ := hic
-  have k0 : ¬ (0 ≤ ic.u_0) := not_le.mpr hu
-  have k1 : ¬ (ic.rho_0 ≤ 0) := not_le.mpr hr0
-  have k3 := eq_true hP
   have hic' : ic = ⟨ic.rho_0, ic.u_0, 0⟩ := by cases ic; simp_all
   have core := simplified_core ic.rho_0 ic.u_0 (s.e ic.rho_0 ic.P_0) ρ (s.P ρ x) x hu hr0 hρ
   rw [← hic'] at core
-  rw [← core, Fin.forall_fin_two]
-  simp only [C16.SPressureS0.F, epv_c16, epv_tree, epv_cond, epv_leaf, hρ, k0, k1, k3, if_true, if_false, Matrix.cons_val]
+  have e0 : C16.SPressureS0.F s ic ρ x 0 = s.P ρ x - ic.u_0 ^ 2 * ic.rho_0 - s.P ρ x / ρ * ic.rho_0 := by
+    simp only [C16.SPressureS0.F] <;> epv_eos_res_eq
+  have e1 : C16.SPressureS0.F s ic ρ x 1 = x - s.e ic.rho_0 ic.P_0 - 1 / 2 * ic.u_0 ^ 2 := by
+    simp only [C16.SPressureS0.F] <;> epv_eos_res_eq
+  rw [← core, Fin.forall_fin_two, e0, e1]
 
 /-- non-vacuity: the default planar problem ρ₀ = 1, u₀ = -1, P₀ = 0 with the ideal-gas (γ = 5/3) Noh state
 (ρ, P, e) = (4, 4/3, 1/2), front speed D = 1/3: the algebraic core is met -/
